@@ -5,7 +5,7 @@ from . import common as cm
 ACTIONS = ["SetPar", "FixPar", "ReleasePar", "AddConstraint", "AddSource", "DoFit", "Read"]
 INVARIANTS = ["Mirrored", "SymmetricLayout", "EverySourceOnItsDiagonal"]
 PROPERTIES = ["FixedKeepValue"]
-PATTERNS = ["disjoint", "shared", "chain", "nonadj", "mixed", "reorder", "single"]
+PATTERNS = ["disjoint", "shared", "chain", "nonadj", "mixed", "reorder", "xyshared", "single"]
 
 
 def constants(pattern, depth, off=(), faults=()):
@@ -26,6 +26,8 @@ def run(tier, seed, faults=()):
         cm.run_replay_stage(rep, "GenMultiFit", cm.gen_cfg(constants(pat, 9, faults=faults)), replay_walk, "%s: simulate" % pat,
                             simulate=(6 if tier == "quick" else 80, 9, seed + 1), max_histories=cap, seed=seed, chunk=10)
     rep.assumptions += ["members: three-point indexed fits with linear models (distinct basis vectors) and one histogram member with a Poisson likelihood; "
+                        "pattern xyshared: two XY members with an x uncertainty shared by both (projected with the current slope): there the oracle is a new "
+                        "multi-fit brought to the same configuration by the same mutators, the reads deleted; "
                         "sources are absolute, uncorrelated between points, with distinct variances so that every block of the joint covariance identifies its sources"]
     rep.coverage["trusted_base"] = ["TLC", "harness/adapters/multifit.py (joint -2 log L from the specification's block layout with numpy)"]
     return rep
